@@ -123,6 +123,7 @@ type tmpl struct {
 	Args  []string // options with non-default values and positional arguments
 	Stdin string   // name of the input sent on stdin ("" = nothing)
 	Skip  []string // flags that cannot be compared in this template
+	Minus string   // derived template: the flag of this name was REMOVED from another template's arguments; only it is compared
 	Fails bool     // the invocation is refused by an argument check before any work (network commands offline)
 	Base  string   // name of the template this one must give another outcome than (it only adds options with non-default values)
 }
@@ -239,6 +240,7 @@ func templates() []tmpl {
 		return tmpl{Name: name, Path: path, Stdin: stdin, Args: args}
 	}
 	B := func(base string, t tmpl) tmpl { t.Base = base; return t }
+	S := func(t tmpl, skip ...string) tmpl { t.Skip = append(t.Skip, skip...); return t }
 	F := func(t tmpl) tmpl { t.Fails = true; return t }
 	return []tmpl{
 		T("stats", "stats", "tree"),
@@ -271,9 +273,12 @@ func templates() []tmpl {
 		B("brlen-setrand", T("brlen-setrand-window", "brlen setrand", "tree", "--seed", "1", "--min-len", "0.1", "--max-len", "0.25")),
 		T("divide", "divide", "trees"),
 		B("divide", T("divide-o", "divide", "trees", "-o", "part")),
-		T("annotate-map", "annotate", "tree", "-m", "{annotmap}"),
-		B("annotate-map", T("annotate-map-comment", "annotate", "tree", "-m", "{annotmap}", "--comment")),
-		T("annotate-tree", "annotate", "named", "-i", "{tree}"),
+		// (no derived template without -m: see annotate-tree — trees and compared tree would both be stdin)
+		S(T("annotate-map", "annotate", "tree", "-m", "{annotmap}"), "~map-file"),
+		B("annotate-map", S(T("annotate-map-comment", "annotate", "tree", "-m", "{annotmap}", "--comment"), "~map-file")),
+		// (no derived template without -i: input trees and compared tree would both come from stdin, which
+		// the tree reader goroutine and readTree race for — the error text varies from run to run)
+		S(T("annotate-tree", "annotate", "named", "-i", "{tree}"), "~input"),
 		T("merge", "merge", "other", "-i", "{rooted}"),
 		T("compare-trees", "compare trees", "tree", "-c", "{trees}"),
 		B("compare-trees", T("compare-trees-l", "compare trees", "tree", "-c", "{trees}", "-l")),
@@ -442,6 +447,82 @@ func given(c *cobra.Command, args []string) map[string]bool {
 	return g
 }
 
+// removeFlag drops option `name` (and its value) from the arguments.
+func removeFlag(c *cobra.Command, args []string, name string) []string {
+	var fl *pflag.Flag
+	for _, f := range visibleFlags(c) {
+		if f.Name == name {
+			fl = f
+		}
+	}
+	if fl == nil {
+		return args
+	}
+	isBool := fl.Value.Type() == "bool"
+	var out []string
+	for i := 0; i < len(args); i++ {
+		a := args[i]
+		hit := a == "--"+name || fl.Shorthand != "" && a == "-"+fl.Shorthand
+		switch {
+		case strings.HasPrefix(a, "--"+name+"="):
+		case hit && isBool:
+		case hit:
+			i++ // its value
+		default:
+			out = append(out, a)
+		}
+	}
+	return out
+}
+
+// allTemplates: the hand-written templates plus, for every option a template gives, the same
+// invocation with that option REMOVED (name "<template>~<flag>"): for such a template only the
+// removed option is compared (omitted vs its documented default).  Without them an option that
+// every template of its command gives — mandatory ones above all (repopulate --id-groups, acr
+// --states, graft --graft, subtree --name, …) — would never be run omitted.  The invocation may
+// well be refused (the option was mandatory): both runs must then be refused alike.
+func allTemplates() []tmpl {
+	ts := templates()
+	seen := map[string]bool{}
+	var extra []tmpl
+	for _, t := range ts {
+		cc := findCmd(t.Path)
+		if cc == nil || t.Fails {
+			continue
+		}
+		var names []string
+		for n := range given(cc, t.Args) {
+			names = append(names, n)
+		}
+		sort.Strings(names)
+		for _, n := range names {
+			if n == "seed" { // a clock seed makes any two runs differ; covered by C19.seed
+				continue
+			}
+			noMinus := false
+			for _, sk := range t.Skip {
+				if sk == "~"+n {
+					noMinus = true
+				}
+			}
+			if noMinus {
+				continue
+			}
+			rest := removeFlag(cc, t.Args, n)
+			if len(rest) == len(t.Args) {
+				continue
+			}
+			key := t.Path + "|" + n + "|" + strings.Join(rest, " ") + "|" + t.Stdin
+			if seen[key] {
+				continue
+			}
+			seen[key] = true
+			extra = append(extra, tmpl{Name: t.Name + "~" + n, Path: t.Path, Args: rest, Stdin: t.Stdin, Minus: n})
+		}
+	}
+	return append(ts, extra...)
+}
+
 // explicitArg: how the documented default is passed on the command line.
 func explicitArg(f *pflag.Flag) string {
 	d := f.DefValue
@@ -565,6 +646,9 @@ func fixedField(r *runner, t tmpl) string {
 	if t.Fails {
 		return "fails"
 	}
+	if t.Minus != "" {
+		return "minus"
+	}
 	return b2s(r.fixed)
 }
 
@@ -601,6 +685,9 @@ func e2e(c *core.Ctx, r *runner, ts []tmpl, only func(t tmpl, flag string) bool)
 			}
 			all = append(all, explicitArg(f))
 			nall++
+			if t.Minus != "" && f.Name != t.Minus {
+				continue
+			}
 			if only != nil && !only(t, f.Name) {
 				continue
 			}
@@ -609,7 +696,7 @@ func e2e(c *core.Ctx, r *runner, ts []tmpl, only func(t tmpl, flag string) bool)
 			cases = append(cases, &e2eCase{t: t, f: f, a0: a0, a1: a1})
 			base[t.Name] = new(string)
 		}
-		if nall >= 2 && (only == nil || only(t, "*")) {
+		if nall >= 2 && t.Minus == "" && (only == nil || only(t, "*")) {
 			cases = append(cases, &e2eCase{joint: true, t: t, a0: r.subst(t.Args), a1: all})
 			base[t.Name] = new(string)
 		}
@@ -671,6 +758,16 @@ func emitWrites(c *core.Ctx) {
 		b.WriteString(core.StrList([]string{w.Path, w.GoVar, w.File, w.Rhs}) + ";")
 	}
 	c.Emit("C19.writes", b.String())
+}
+
+// emitChanged: table (f), the tests of whether an option was given.
+func emitChanged(c *core.Ctx) {
+	cs, _ := changedSites(c.Repo)
+	var b strings.Builder
+	for _, x := range cs {
+		b.WriteString(core.StrList([]string{x.Path, x.Flag, x.File}) + ";")
+	}
+	c.Emit("C19.changed", b.String())
 }
 
 // emitReads: one case per (command, flag-bound variable the command's body reads without binding
@@ -1025,6 +1122,8 @@ func Replay(c *core.Ctx, lines []string) {
 			emitOrder(c, table)
 		case "C19.writes":
 			emitWrites(c)
+		case "C19.changed":
+			emitChanged(c)
 		case "C19.reads":
 			emitReads(c, table, un(1)+"/"+un(2))
 		case "C19.row":
@@ -1079,7 +1178,7 @@ func Replay(c *core.Ctx, lines []string) {
 			}
 			path, flag, name := strings.TrimPrefix(un(1), "gotree "), un(2), un(5)
 			var ts []tmpl
-			for _, t := range templates() {
+			for _, t := range allTemplates() {
 				if t.Path == path && (name == "" || t.Name == name) {
 					ts = append(ts, t)
 				}
@@ -1108,6 +1207,7 @@ func Run(c *core.Ctx) {
 	emitTable(c, table)
 	emitOrder(c, table)
 	emitWrites(c)
+	emitChanged(c)
 	emitReads(c, table, "")
 	for i := range table {
 		emitRow(c, table, i)
@@ -1125,7 +1225,7 @@ func Run(c *core.Ctx) {
 	if c.Gotree == "" {
 		return
 	}
-	ts := templates()
+	ts := allTemplates()
 	// quick: the fixed inputs; thorough: the fixed inputs for seed shard 0 and drawn inputs otherwise
 	variants := []int64{0}
 	if !c.Quick() {
@@ -1133,7 +1233,7 @@ func Run(c *core.Ctx) {
 		if c.Seed%1000 == 0 {
 			variants = append(variants, 0)
 		}
-		for k := int64(1); k <= 6; k++ {
+		for k := int64(1); k <= 4; k++ {
 			variants = append(variants, c.Seed*7919+k)
 		}
 	}
@@ -1172,4 +1272,29 @@ func reportCoverage(table []Row, ts []tmpl) {
 	walk(cmd.RootCmd)
 	sort.Strings(missing)
 	fmt.Fprintf(os.Stderr, "c19: runnable commands without a template: %s\n", strings.Join(missing, "; "))
+	// (command, flag) pairs that no template leaves out, i.e. that are never run with the option omitted
+	omitted := map[string]bool{}
+	all := map[string]bool{}
+	for _, t := range ts {
+		cc := findCmd(t.Path)
+		if cc == nil {
+			continue
+		}
+		g := given(cc, t.Args)
+		for _, f := range visibleFlags(cc) {
+			k := t.Path + " --" + f.Name
+			all[k] = true
+			if !g[f.Name] && (t.Minus == "" || t.Minus == f.Name) {
+				omitted[k] = true
+			}
+		}
+	}
+	var never []string
+	for k := range all {
+		if !omitted[k] {
+			never = append(never, k)
+		}
+	}
+	sort.Strings(never)
+	fmt.Fprintf(os.Stderr, "c19: (command, flag) pairs never run with the option omitted: %s\n", strings.Join(never, "; "))
 }
